@@ -1,2 +1,141 @@
 #![allow(warnings, clippy::all, clippy::pedantic, clippy::nursery)]
+//@ module: repository
 use super::*;
+use crate::error::verif_harness as vh;
+use crate::error::verif_harness::MockBe;
+use crate::backend::decrypt::DecryptBackend;
+use crate::crypto::aespoly1305::Key;
+use crate::crypto::CryptoKey;
+use crate::progress::NoProgressBars;
+use crate::repofile::snapshotfile::SnapshotId;
+use std::sync::atomic::{AtomicBool, AtomicU8, Ordering::SeqCst};
+
+static SERVE: [u8; 0] = [];
+
+/// a Repository<OpenStatus> by struct literal over a counting mock store (no backend I/O to open it)
+pub(crate) fn mock_repo(store: Arc<MockBe>, config: ConfigFile) -> Repository<OpenStatus> {
+    let dynbe: Arc<dyn WriteBackend> = store;
+    Repository {
+        name: String::new(),
+        be: dynbe.clone(),
+        be_hot: None,
+        be_cold: dynbe.clone(),
+        opts: RepositoryOptions::default(),
+        pb: Arc::new(NoProgressBars {}),
+        status: OpenStatus { cache: None, dbe: DecryptBackend::new(dynbe, Key::default()), config, key_id: None },
+    }
+}
+
+// ---- cuts: callees behind the guards reach rayon/threads, which Kani cannot compile (DESIGN 1.3a) ----
+static CUT_REACHED: AtomicBool = AtomicBool::new(false);
+static SAVE_CONFIG_CALLS: AtomicU8 = AtomicU8::new(0);
+
+/// same shape as DecryptWriteBackend::{delete_list, save_list} for Kani's trait-method stubbing
+pub(crate) trait CutWrite: WriteBackend {
+    fn delete_list<'a, ID: crate::repofile::RepoId, I: ExactSizeIterator<Item = &'a ID> + Send>(&self, _cacheable: bool, _list: I, _p: Progress) -> RusticResult<()> {
+        CUT_REACHED.store(true, SeqCst);
+        Ok(())
+    }
+}
+impl<T: WriteBackend> CutWrite for T {}
+
+fn cut_save_config<S, K: CryptoKey>(_repo: &Repository<S>, _new_config: ConfigFile, _key: K) -> RusticResult<()> {
+    SAVE_CONFIG_CALLS.fetch_add(1, SeqCst);
+    Ok(())
+}
+
+fn cut_warm_up_wait<S, I: ExactSizeIterator<Item = crate::repofile::packfile::PackId>>(_repo: &Repository<S>, _packs: I) -> RusticResult<()> {
+    CUT_REACHED.store(true, SeqCst);
+    kani::cover!(true, "UNREACHABLE: prune went past its append-only guard");
+    kani::assume(false);
+    Ok(())
+}
+
+//@ harness: c15_append_only_delete_snapshots
+//@ prop: C15
+//@ tier: quick
+//@ timeout: 900
+//@ mem: 10
+//@ unwindset: IterMut<'_, u8> as std::iter::Iterator>::fold.*#0=66
+//@ kernel: Repository::delete_snapshots (guard), Repository::config
+//@ bound: one call with 1 snapshot id (symbolic first byte) on a repository whose stored config has append_only symbolic (None / Some(false) / Some(true)), all other config fields default
+//@ oracle: append_only == Some(true) => Err and the store saw no write/remove/create and the deletion routine was not entered; otherwise the deletion routine is entered
+//@ stub: DecryptWriteBackend::delete_list -> recording cut (its body is a rayon par_bridge loop Kani cannot compile); Backtrace::capture
+//@ outside: what delete_list removes (threaded)
+#[kani::proof]
+#[kani::unwind(40)]
+#[kani::stub(std::backtrace::Backtrace::capture, crate::error::verif_harness::stub_backtrace_capture)]
+#[kani::stub(crate::backend::decrypt::DecryptWriteBackend::delete_list, CutWrite::delete_list)]
+#[kani::stub(crate::error::RusticError::new, crate::error::verif_harness::stub_rustic_new)]
+#[kani::stub(crate::error::RusticError::attach_context, crate::error::verif_harness::stub_attach_context)]
+#[kani::stub(crate::error::RusticError::attach_source, crate::error::verif_harness::stub_attach_source)]
+pub(crate) fn c15_append_only_delete_snapshots() {
+    let store = Arc::new(MockBe::new(true, 0, &SERVE));
+    let mut config = ConfigFile::default();
+    config.append_only = if kani::any() { Some(kani::any()) } else { None };
+    let ao = config.append_only == Some(true);
+    let repo = mock_repo(store.clone(), config);
+    let ids = [SnapshotId::from(vh::mk_id(kani::any()))];
+    let r = repo.delete_snapshots(&ids);
+    if ao {
+        assert!(r.is_err());
+        assert!(store.mutations() == 0);
+        assert!(!CUT_REACHED.load(SeqCst));
+        kani::cover!(true, "append-only delete refused");
+    } else {
+        assert!(r.is_ok() && CUT_REACHED.load(SeqCst));
+    }
+    std::mem::forget(r); std::mem::forget(repo); std::mem::forget(store);
+}
+
+//@ harness: c15_c18_apply_config_guard
+//@ prop: C15 C18
+//@ tier: quick
+//@ timeout: 1200
+//@ mem: 12
+//@ unwindset: ^memcmp#0=34; _fmt_inner#0=24; IterMut<'_, u8> as std::iter::Iterator>::fold.*#0=66
+//@ kernel: commands::config::apply_config (guard + clone-then-apply structure), ConfigOptions::apply, Repository::{config, set_config}
+//@ bound: stored config and options fully symbolic as in c18_config_apply_frame; one call
+//@ oracle: append-only repository and the change does not switch append-only off => Err; Err (refused for any reason) => nothing is saved and the in-memory config is exactly the old one; Ok(false) => nothing saved, config unchanged; Ok(true) => exactly one save and the in-memory config is the old one with the options applied
+//@ stub: commands::config::save_config -> counting stub (its real body encrypts with the AES key and thread-local RNG and crashes the Kani compiler); construct_size_too_large_error; Backtrace::capture; fmt::format; zstd::compression_level_range
+#[kani::proof]
+#[kani::unwind(4)]
+#[kani::stub(std::backtrace::Backtrace::capture, crate::error::verif_harness::stub_backtrace_capture)]
+#[kani::stub(zstd::compression_level_range, crate::error::verif_harness::stub_level_range)]
+#[kani::stub(alloc::fmt::format, crate::error::verif_harness::stub_format)]
+#[kani::stub(crate::commands::config::save_config, cut_save_config)]
+#[kani::stub(crate::commands::config::construct_size_too_large_error, crate::commands::config::verif_harness::stub_size_too_large)]
+#[kani::stub(crate::error::RusticError::new, crate::error::verif_harness::stub_rustic_new)]
+#[kani::stub(crate::error::RusticError::attach_context, crate::error::verif_harness::stub_attach_context)]
+#[kani::stub(crate::error::RusticError::attach_source, crate::error::verif_harness::stub_attach_source)]
+pub(crate) fn c15_c18_apply_config_guard() {
+    let store = Arc::new(MockBe::new(true, 0, &SERVE));
+    let config = crate::commands::config::verif_harness::any_config();
+    let old = config.clone();
+    let mut repo = mock_repo(store.clone(), config);
+    let opts = crate::commands::config::verif_harness::any_options();
+    let r = repo.apply_config(&opts);
+    let saves = SAVE_CONFIG_CALLS.load(SeqCst);
+    assert!(store.mutations() == 0);
+    match &r {
+        Err(_) => {
+            assert!(saves == 0);
+            assert!(repo.config() == &old);
+            kani::cover!(old.append_only == Some(true), "refused on an append-only repository");
+            kani::cover!(old.append_only != Some(true), "refused for an invalid value");
+        }
+        Ok(false) => { assert!(saves == 0); assert!(repo.config() == &old); }
+        Ok(true) => {
+            assert!(saves == 1);
+            assert!(repo.config() != &old);
+            // allowed on an append-only repository only when append-only is switched off by this change
+            assert!(old.append_only != Some(true) || opts.set_append_only == Some(false));
+            let mut expect = old.clone();
+            let e = opts.apply(&mut expect);
+            assert!(e.is_ok() && repo.config() == &expect);
+            std::mem::forget(e);
+            kani::cover!(old.append_only == Some(true), "append-only switched off");
+        }
+    }
+    std::mem::forget(r); std::mem::forget(repo); std::mem::forget(store);
+}
